@@ -38,6 +38,20 @@ CHECKS = {
          "Exploration: field independence of every updater, safety/liveness window of the modular comparison for generated and enumerated (epoch, age) pairs, and the real cascade's immediate-vs-defer decision at generated true ages."),
  "C19": ("PBT of Eq/Ord/Hash against Option<&T> of the referent plus algebraic laws", "6/C19",
          "Exploration: generated pointer pools (null, tagged, re-stamped, equal-content distinct objects); every comparison and hash must equal the same operation on the referents, and the Eq/Ord/Hash laws must hold over all pairs and triples."),
+ "C13": ("model-based PBT over scheduled pin/defer/collect programs (grace-period oracle on critical-section instances)", "6/C13",
+         "Exploration: generated multi-threaded EBR programs on the default collector under the cooperative scheduler (preemption inside pin, try_advance, push_bag, collect, queue and list) and sequential private-collector programs; a deferred function must not run while a critical section that was active at its deferral is still active."),
+ "C14": ("invariant checking at every scheduled atomic step (epoch clock monotone, pinned participants within one epoch)", "6/C14",
+         "Exploration: the same worlds, sampled at every yield point: the global epoch moves by 0 or +1 between samples and every participant inside a checked interval is within one epoch of it, across unpin's collection loop and all internal re-pins."),
+ "C15": ("model-based PBT with per-closure execution counters, checksummed captures and thread exits at generated points", "6/C15",
+         "Exploration: closures of generated size/alignment (inline and boxed storage), bag fill levels 0..130, threads exiting with pending garbage, private collectors dropped with garbage pending; each deferred function runs at most once at any time and exactly once within a bounded number of rounds."),
+ "C16": ("model-based PBT of guard nesting/reactivation against the participant's real pin state", "6/C16",
+         "Exploration: nested guards dropped in any order, reactivate/reactivate_after incl. panicking closures and use inside deferred functions; model pinned <=> live guards compared with the participant's state after every op."),
+ "C17": ("history-based PBT: linearizability search (Wing-Gong) of scheduled queue histories against a FIFO-with-conditional-pop specification", "6/C17",
+         "Exploration: generated 2-4 thread histories on the internal queue under generated preemptions; rejected only if no linearisation exists; plus conservation and no-duplicate checks."),
+ "C18": ("history-based PBT: membership-interval containment of scheduled list traversals; finalize-exactly-once accounting", "6/C18",
+         "Exploration: generated insert/delete/traverse histories on the internal list under generated preemptions; a non-stalled traversal must have visited every element registered before it began and not removed before it ended."),
+ "C20": ("PBT over thread-local destruction orders and API actions inside destructors, in forked children", "6/C20",
+         "Exploration: generated thread lifecycles (TLS initialisation order relative to the participant handle, destructor action lists, pending deferrals at exit); the thread must exit normally and a surviving thread must reclaim everything it produced."),
 }
 
 NOT_YET = {
